@@ -180,6 +180,11 @@ struct Ctx
     if (trace)
       std::printf("  | %s\n", s.c_str());
   }
+  void probe(std::string const &name, std::uint64_t n = 1)
+  {
+    if (probes != nullptr)
+      (*probes)[name] += n;
+  }
   void probe(char const *name, std::uint64_t n = 1)
   {
     if (probes != nullptr)
